@@ -51,6 +51,21 @@ def collectLines (text : Nat → String) (isLookupName : String → Bool) (R : L
   | .comp i _ inner =>
       let m := (match recorded R i with | some v => putLine m (text i) v | none => m)
       collectLinesList text isLookupName R m inner
+  -- second version: `generic_visit` walks the children in field order; a call gets a line; an f-string gets a line
+  -- for the whole string and is NOT descended into (`visit_JoinedStr`)
+  | .starred _ e => collectLines text isLookupName R m e
+  | .coll _ _ es => collectLinesList text isLookupName R m es
+  | .dict _ items => collectLinesVals text isLookupName R (collectLinesKeys text isLookupName R m items) items
+  | .slice _ lo hi step =>
+      collectLinesOpt text isLookupName R (collectLinesOpt text isLookupName R (collectLinesOpt text isLookupName R m lo) hi) step
+  | .callkw i f args kws =>
+      let m := (match recorded R i with | some v => putLine m (text i) v | none => m)
+      collectLinesKws text isLookupName R (collectLinesList text isLookupName R (collectLines text isLookupName R m f) args) kws
+  | .fvalue _ e _ spec => collectLinesOpt text isLookupName R (collectLines text isLookupName R m e) spec
+  | .fstring i _ =>
+      match recorded R i with
+      | some v => if representable v then putLine m (text i) v else m
+      | none => m
 def collectLinesList (text : Nat → String) (isLookupName : String → Bool) (R : Log) (m : List (String × Val)) :
     List Expr → List (String × Val)
   | [] => m
@@ -59,6 +74,24 @@ def collectLinesCmp (text : Nat → String) (isLookupName : String → Bool) (R 
     List (CmpOp × Expr) → List (String × Val)
   | [] => m
   | (_, e) :: rest => collectLinesCmp text isLookupName R (collectLines text isLookupName R m e) rest
+/-- `ast.Dict` has the fields `keys`, `values`: all keys are walked first, then all values -/
+def collectLinesKeys (text : Nat → String) (isLookupName : String → Bool) (R : Log) (m : List (String × Val)) :
+    List (Option Expr × Expr) → List (String × Val)
+  | [] => m
+  | (none, _) :: rest => collectLinesKeys text isLookupName R m rest
+  | (some k, _) :: rest => collectLinesKeys text isLookupName R (collectLines text isLookupName R m k) rest
+def collectLinesVals (text : Nat → String) (isLookupName : String → Bool) (R : Log) (m : List (String × Val)) :
+    List (Option Expr × Expr) → List (String × Val)
+  | [] => m
+  | (_, e) :: rest => collectLinesVals text isLookupName R (collectLines text isLookupName R m e) rest
+def collectLinesKws (text : Nat → String) (isLookupName : String → Bool) (R : Log) (m : List (String × Val)) :
+    List (Option String × Expr) → List (String × Val)
+  | [] => m
+  | (_, e) :: rest => collectLinesKws text isLookupName R (collectLines text isLookupName R m e) rest
+def collectLinesOpt (text : Nat → String) (isLookupName : String → Bool) (R : Log) (m : List (String × Val)) :
+    Option Expr → List (String × Val)
+  | none => m
+  | some e => collectLines text isLookupName R m e
 end
 
 /-- `_ARGS` / `_KWARGS` are shown only if the condition names them -/
